@@ -123,7 +123,7 @@ class Hist(Stream):
            ['upd_nodes', 'g1', 'p0', 'v1'], ['graph_exists', 'g1']]
 
     def gen(self, rng, tier):
-        n = 400 if tier == 'quick' else 6000
+        n = 400 if tier == 'quick' else 4000
         out = []
         for i in range(n):
             r = rng.random()
